@@ -140,10 +140,12 @@ func c11StartBroker(t *testing.T, wrap func(metadata.Store) metadata.Store) (str
 func TestVerifC11Broker(t *testing.T) {
 	log.SetOutput(io.Discard) // broker.Server logs every dropped connection
 	r := verifkit.Start(t, "C11", "broker")
-	defer r.Finish("real cmd/broker handler behind the real broker.Server loop on loopback, three configurations (default; ACL enabled with default-deny; metadata store unavailable). The advertised table is parsed from the live ApiVersions v0 reply. For every advertised (key, version) x PRNG bodies (tame field values, existing and unknown topics/groups/member ids, valid/garbled/truncated/null record batches, null/empty/unicode client ids, boundary correlation ids) the request is sent followed by a sentinel request on the same connection: a reply frame must arrive before the sentinel's (acks=0 produce excepted), its first 4 bytes must be the correlation id, the header must have the tagged-field section iff the response version is flexible (never for ApiVersions), and kmsg.ResponseForKey(key) at that version must decode the body and re-encode it to the same bytes. Then every other version in [0, codec max+2] of every key the codec knows: no reply / closed connection is accepted, but a reply must decode at that version (KIP-511: ApiVersions may answer in v0 with UNSUPPORTED_VERSION). Reply-size sweep, same oracle: advertised requests whose reply echoes a client-chosen string (DescribeGroups v5 group id, DeleteGroups v0/v2 group id, Metadata v1/v5/v9/v12 unknown topic name, CreateTopics v0/v2 illegal topic name, OffsetFetch v5 topic) are sent with every string length 0..1100 (quick: the first two templates - one flexible, one not - in the default configuration; thorough: all templates there and two in the other configurations) and with lengths placed so that the reply payload lands on 2^k-8..2^k+8 for k=5..16 (quick: k=9..16 for the templates without the full length range; up to 2^12 and two templates in the ACL / metadata-unavailable configurations), 2-8 requests plus a sentinel pipelined per connection; every reply must start with its own correlation id right where the previous reply's announced length ends and must pass the same header/decode/re-encode checks; when a pipelined stream stops being the sequence of due replies, each request of the batch is asked again alone (request + sentinel on a fresh connection), and a reply that is itself fine but is not followed by the sentinel's reply frame is reported once the sentinel alone on a fresh connection is answered intact; the reply payload sizes reached are recorded (every size 32..1100 and 2^k±4 for k=11..16 in the default configuration, else inconclusive). non-trivial = a reply with a body was received and decoded",
+	defer r.Finish("real cmd/broker handler behind the real broker.Server loop on loopback, three configurations (default; ACL enabled with default-deny; metadata store unavailable). The advertised table is parsed from the live ApiVersions v0 reply. For every advertised (key, version) x PRNG bodies (tame field values, existing and unknown topics/groups/member ids, valid/garbled/truncated/null record batches, null/empty/unicode client ids, boundary correlation ids) the request is sent followed by a sentinel request on the same connection: a reply frame must arrive before the sentinel's (acks=0 produce excepted), its first 4 bytes must be the correlation id, the header must have the tagged-field section iff the response version is flexible (never for ApiVersions), and kmsg.ResponseForKey(key) at that version must decode the body and re-encode it to the same bytes. Then every other version in [0, codec max+2] of every key the codec knows: no reply / closed connection is accepted, but a reply must decode at that version (KIP-511: ApiVersions may answer in v0 with UNSUPPORTED_VERSION). Reply-size sweep, same oracle: advertised requests whose reply echoes a client-chosen string (DescribeGroups v5 group id, DeleteGroups v0/v2 group id, Metadata v1/v5/v9/v12 unknown topic name, CreateTopics v0/v2 illegal topic name, OffsetFetch v5 topic) are sent with every string length 0..1100 (quick: the first two templates - one flexible, one not - in the default configuration; thorough: all templates there and two in the other configurations) and with lengths placed so that the reply payload lands on 2^k-8..2^k+8 for k=5..16 (quick: k=9..16 for the templates without the full length range; up to 2^12 and two templates in the ACL / metadata-unavailable configurations), 2-8 requests plus a sentinel pipelined per connection; every reply must start with its own correlation id right where the previous reply's announced length ends and must pass the same header/decode/re-encode checks; when a pipelined stream stops being the sequence of due replies, each request of the batch is asked again alone (request + sentinel on a fresh connection), and a reply that is itself fine but is not followed by the sentinel's reply frame is reported once the sentinel alone on a fresh connection is answered intact; the reply payload sizes reached are recorded (every size 32..1100 and 2^k±4 for k=11..16 in the default configuration, else inconclusive). Request streams with requests that have no reply by protocol, same oracle plus order: on one connection 2-7 slots, each either a Produce with acks=0 at a PRNG-chosen advertised version (1-3 topics x 1-2 partitions, drawn per partition: existing / new legal / illegal topic name; partition 0 or an index the topic may not have (1,2,3,7,-1); record set valid, shorter than a record-batch header, random bytes, truncated batch, null, or a valid batch with batchLength / magic / lastOffsetDelta / record count overwritten), in half of the cases followed by its acked twin (the same topics, partitions and record sets with acks=1/-1, whose reply shows which of them the server accepts and which it rejects), or an advertised request of any API (JoinGroup/SyncGroup excepted; 30% acked Produce), at least one reply-expecting request after the last acks=0 produce, then the sentinel; correlation ids are unique within the stream; the stream is written pipelined or with one request in flight (an acks=0 produce is followed at once by the next request), several streams per connection. The connection is read the way a client does: one frame per reply-expecting request, in order. Each frame must begin with the correlation id of the request whose reply is due and pass the header/decode/re-encode checks above; a frame that carries the correlation id of an earlier acks=0 produce of the stream is a violation (the client takes it for the reply to the next request: foreign correlation id and body, every later reply shifted by one); any other foreign frame: the unanswered requests are asked again alone, and if all are fine there the stream itself is reported; a connection that ends mid-stream is not judged as such, the unanswered requests are judged alone. The matrix applies the same rule to its own acks=0 produce cases: a frame before the sentinel's reply is a violation (advertised versions). non-trivial = a reply with a body was received and decoded; for a stream: it ran to the sentinel's reply and at least one reply read after an acks=0 produce was decoded",
 		"read deadline 60 s is a watchdog only (=> inconclusive), with one exception that implements 'a request at that version gets a reply' for lost replies: when an advertised request (not acks=0) gets no complete reply within the watchdog although the connection stays open (neither its reply nor the pipelined sentinel's reply arrives), the same request is sent once more alone on a fresh connection with the same 60 s watchdog; a complete reply there is judged as usual, a second watchdog on an open connection is reported as advertised_version_not_served",
 		"a connection that ends while the pipelined sentinel is unread is re-asked once without pipelining before it is judged",
 		"acks=0 produce requests always carry at least one topic (an acks=0 produce with no topics is never sent)",
+		"a Produce request with acks=0 has no reply (Kafka protocol): a standard client does not read a frame for it, so the next frame on the connection is what it decodes as the reply to its next request; 'the reply carries the request's correlation id' is judged on that reading",
+		"a server that closes the connection after an acks=0 produce (as Apache Kafka does when such a produce fails) is not objected to",
 		"the metadata store is the real InMemoryStore behind a counting decorator: 2000 identical (NextOffset -> unknown, CreateTopic -> exists) answer pairs within one request prove a handler livelock (nothing else mutates the store); the decorator then cuts the loop so the run continues, and the request is reported as never answered")
 	configs := []struct {
 		name string
